@@ -545,7 +545,9 @@ func dottedSchemaCase(ctx *core.Ctx, idx int, res *core.Result) {
 
 var loopHeaders = []string{"", "cond()", "i := 0; i < n; i++", "; i < n;", "i := 0; ; i++", "_, v := range vs", "k := range m", "range ch", "k, v = range m", "i := range 10", ";;"}
 
-func forDotsCase(ctx *core.Ctx, idx int, res *core.Result) {
+func forDotsCase(ctx *core.Ctx, idx int, res *core.Result) { forDotsCaseFor(ctx, idx, res, "C04") }
+
+func forDotsCaseFor(ctx *core.Ctx, idx int, res *core.Result, prop string) {
 	bodies := [][2]string{
 		{" for ‹1:for› {\n-  target(«x»)\n+  repl(«x»)\n }", "target(1)"},
 		{" for ‹1:for› {\n   ‹2:stmts›\n-  target(«x»)\n+  repl(«x»)\n   ‹3:stmts›\n }", "pre()\n\ttarget(1)\n\tpost()"},
@@ -576,7 +578,7 @@ func forDotsCase(ctx *core.Ctx, idx int, res *core.Result) {
 		h2, h3 := loopHeaders[(i+1)%len(loopHeaders)], loopHeaders[(i+2)%len(loopHeaders)]
 		fmt.Fprintf(&sb, "func loops%d() {\n\tfor %s {\n\tkeep()\n\t}\n\tfor %s {\n\tgone()\n\t}\n\tfor %s {\n\t%s\n\t}\n}\n\n", i, h3, h2, h, b[1])
 	}
-	semBatch(ctx, idx, res, c, []string{sb.String()}, nil, true, "C04")
+	semBatch(ctx, idx, res, c, []string{sb.String()}, nil, true, prop)
 	for _, h := range loopHeaders {
 		res.Sig("for-dots", idx%len(bodies), h)
 	}
